@@ -52,13 +52,8 @@ import (
 	"time"
 
 	eth2api "github.com/attestantio/go-eth2-client/api"
-	eth2v1 "github.com/attestantio/go-eth2-client/api/v1"
-	eth2deneb "github.com/attestantio/go-eth2-client/api/v1/deneb"
-	eth2electra "github.com/attestantio/go-eth2-client/api/v1/electra"
-	eth2fulu "github.com/attestantio/go-eth2-client/api/v1/fulu"
 	eth2spec "github.com/attestantio/go-eth2-client/spec"
 	"github.com/attestantio/go-eth2-client/spec/altair"
-	"github.com/attestantio/go-eth2-client/spec/deneb"
 	"github.com/attestantio/go-eth2-client/spec/electra"
 	eth2p0 "github.com/attestantio/go-eth2-client/spec/phase0"
 	ssz "github.com/ferranbt/fastssz"
@@ -1302,6 +1297,9 @@ func ptrs(v reflect.Value, out map[uintptr]bool, depth int) {
 			}
 		}
 	case reflect.Struct:
+		if v.Type() == reflect.TypeOf(time.Time{}) { // *time.Location is a shared immutable global
+			return
+		}
 		for i := 0; i < v.NumField(); i++ {
 			ptrs(v.Field(i), out, depth+1)
 		}
@@ -1361,7 +1359,9 @@ func (e *env) roundTrip(k *kind, js, szExp []byte, rootExp []byte) {
 	v := deref(p)
 	root, hasRoot, rerr := rootOf(v)
 	if rerr != nil {
-		e.viol("codec:roundtrip_changed_root", fmt.Sprintf("%s: root of the decoded value: %v", k.name, rerr))
+		if len(rootExp) == 32 { // the generated value had a root (core.Signature never has one)
+			e.viol("codec:roundtrip_changed_root", fmt.Sprintf("%s: root of the decoded value: %v", k.name, rerr))
+		}
 		hasRoot = false
 	}
 	if hasRoot && len(rootExp) == 32 && !bytes.Equal(root[:], rootExp) {
@@ -1773,7 +1773,7 @@ func sszMutants(rng *hx.Rng, b []byte, others [][]byte, thorough bool) []mutant 
 	// inner offsets: every 4-byte word of the first part set to extreme values
 	lim := 320
 	if thorough {
-		lim = 2048
+		lim = 1024
 	}
 	for off := 0; off+4 <= n && off < lim; off += 4 {
 		sp(put32(b, off, 0xffffffff))
@@ -1844,4 +1844,328 @@ func randomPayloads(rng *hx.Rng, n int) []mutant {
 		out = append(out, mutant{"random", b})
 	}
 	return out
+}
+
+// ---------------------------------------------------------------- generator
+
+func randBytes(rng *hx.Rng, n int) []byte {
+	b := make([]byte, n)
+	for i := range b {
+		b[i] = byte(rng.U64())
+	}
+	return b
+}
+
+func wrapperOf(typ string) string {
+	return map[string]string{"VersionedSignedProposal": "VSP", "VersionedProposal": "VP", "VersionedAttestation": "VA",
+		"VersionedSignedAggregateAndProof": "VSAP", "VersionedAggregatedAttestation": "VAA"}[typ]
+}
+
+// headerInfo extracts (version, flag token, inner object) of a real wrapped value.
+func headerInfo(t string, v any) (int, string, core.VerifSSZType, bool) {
+	p := reflect.New(reflect.TypeOf(v))
+	p.Elem().Set(reflect.ValueOf(v))
+	hdr := strings.Split(getHeader(t, p.Interface()), " ")
+	vn, err := strconv.Atoi(hdr[0])
+	if err != nil || vn < 0 {
+		return 0, "", nil, false
+	}
+	flag := "-"
+	if len(hdr) > 1 {
+		flag = hdr[1]
+	}
+	in, err := innerOf(t, p.Interface(), versions[vn], flag == "1")
+	if err != nil {
+		return 0, "", nil, false
+	}
+	return vn, flag, in, true
+}
+
+var spaceRunes = []string{"\t", "\n", "\v", "\f", "\r", " ", "\xc2\x85", "\xc2\xa0", "\xe1\x9a\x80", "\xe2\x80\x80", "\xe2\x80\x83", "\xe2\x80\x8a",
+	"\xe2\x80\xa8", "\xe2\x80\xa9", "\xe2\x80\xaf", "\xe2\x81\x9f", "\xe3\x80\x80"}
+var nonSpace = []string{"\xe2\x80\x8b", "\xe2\x80\x8c", "\xef\xbb\xbf", "\xc0\xa0", "\xe0\x80\xa0", "\xc2", "\xe2\x80", "\xe2", "\xc2\x86", "\xc2\x84", "\xe2\x80\xa7",
+	"\xe2\x80\xae", "\xe2\x81\x9e", "\xe3\x80\x81", "\xe1\x9a\x81", "\xf0\x9f\x98\x80", "\x00", "\x1f", "\x1c", "\x7f", "\x80", "\xff", "[", "\"", "a", "}", "0"}
+
+func fbData(rng *hx.Rng) []byte {
+	var b []byte
+	for i, k := 0, rng.Intn(5); i < k; i++ {
+		if rng.Chance(3, 4) {
+			b = append(b, spaceRunes[rng.Intn(len(spaceRunes))]...)
+		} else {
+			b = append(b, nonSpace[rng.Intn(len(nonSpace))]...)
+		}
+	}
+	switch rng.Intn(6) {
+	case 0, 1, 2:
+		b = append(b, '{')
+	case 3:
+		b = append(b, nonSpace[rng.Intn(len(nonSpace))]...)
+	case 4:
+		b = append(b, randBytes(rng, 1+rng.Intn(3))...)
+	}
+	for i, k := 0, rng.Intn(3); i < k; i++ {
+		b = append(b, append([]byte(spaceRunes[rng.Intn(len(spaceRunes))]), '}')...)
+	}
+	return b
+}
+
+func gen(a hx.Args, e *env, do func(string)) {
+	rng := hx.NewRng(a.Seed)
+	rand.Seed(int64(a.Seed)) //nolint:staticcheck // testutil draws from the global source
+	crand.Reader = detReader{rand.New(rand.NewSource(int64(a.Seed) + 77))}
+	thorough := a.Tier != "quick"
+	run := e.run
+	modes := []string{"ok", "ok", "eoff", "esize", "eother"}
+
+	// ---- 1. wrappers with a scripted inner object
+	for i := 0; i < a.N; i++ {
+		vn := rng.Intn(9)
+		inner := randBytes(rng, []int{0, 1, 4, 8, 9, 30}[rng.Intn(6)])
+		w := rng.Intn(3)
+		var valid []byte
+		fi := &fakeInner{enc: inner}
+		v, _ := verOf(uint64(vn % 7))
+		switch w {
+		case 0:
+			do(fmt.Sprintf("mb %d %d %s", vn, i%2, hx2(inner)))
+			valid, _ = core.VerifMarshalSSZVersionedBlindedTo(nil, v, i%2 == 1, fi.valFuncB)
+		case 1:
+			do(fmt.Sprintf("mv %d %s", vn, hx2(inner)))
+			valid, _ = core.VerifMarshalSSZVersionedTo(nil, v, fi.valFunc)
+		default:
+			idx := []uint64{0, 1, 20, 1 << 32, 1<<64 - 1, rng.U64()}[rng.Intn(6)]
+			do(fmt.Sprintf("mi %d %d %s", vn, idx, hx2(inner)))
+			valid, _ = core.VerifMarshalSSZVersionedValidatorIdxTo(nil, v, eth2p0.ValidatorIndex(idx), fi.valFunc)
+		}
+		run.Count("corr_marshal")
+		// decode side: the valid bytes and alterations of them, under every wrapper
+		buf := append([]byte(nil), valid...)
+		switch rng.Intn(8) {
+		case 0:
+			buf = buf[:rng.Intn(len(buf)+1)]
+		case 1:
+			binary.LittleEndian.PutUint64(buf, []uint64{7, 8, 255, 1 << 32, 1 << 63, 6}[rng.Intn(6)])
+		case 2:
+			off := []int{8, 9, 16}[rng.Intn(3)]
+			buf = put32(buf, off, []uint32{0, 11, 12, 13, 14, 19, 20, 21, uint32(len(buf)), uint32(len(buf) + 1), 0xffffffff}[rng.Intn(11)])
+		case 3:
+			at := rng.Intn(len(buf) + 1)
+			buf = append(append(append([]byte(nil), buf[:at]...), randBytes(rng, 1+rng.Intn(4))...), buf[at:]...)
+		case 4:
+			buf = randBytes(rng, rng.Intn(30))
+		case 5:
+			if len(buf) > 8 {
+				buf[8] = []byte{0, 1, 2, 255}[rng.Intn(4)]
+			}
+		}
+		op := []string{"ub", "uv", "ui"}[rng.Intn(3)]
+		if rng.Chance(2, 3) {
+			op = []string{"ub", "uv", "ui"}[w]
+		}
+		do(fmt.Sprintf("%s %s %s", op, hx2(buf), modes[rng.Intn(len(modes))]))
+		run.Count("corr_unmarshal")
+		// fallback decision
+		do(fmt.Sprintf("fb %s %s %s", []string{"s", "s", "j"}[rng.Intn(3)], []string{"ok", "err", "err", "err"}[rng.Intn(4)], hx2(fbData(rng))))
+		run.Count("corr_fallback")
+	}
+	for _, p := range []string{"s", "j"} {
+		for _, en := range []string{"0", "1"} {
+			do("mf " + p + " " + en)
+		}
+	}
+
+	// ---- 2. real values of every kind
+	reps := 1
+	if thorough {
+		reps = 2
+	}
+	type encd struct {
+		k        *kind
+		ssz, jsn []byte
+		wire     []byte // core.marshal: what is put on the wire
+		s20      bool
+	}
+	var all []encd
+	sszByType := map[string][][]byte{}
+	for ki := range e.ks {
+		k := &e.ks[ki]
+		for r := 0; r < reps; r++ {
+			v := k.gen()
+			if k.typ == "VersionedAttestation" && strings.HasSuffix(k.name, "/noidx") && r == 0 {
+				// the slot the compatibility fallback cannot tell apart (see Props/C14.lean)
+				va := v.(core.VersionedAttestation)
+				if d, err := va.Data(); err == nil {
+					d.Slot = 20
+				}
+			}
+			js, err := toJSON(v)
+			hx.Must(err)
+			sz, isSSZ, err := toSSZ(v)
+			hx.Must(err)
+			root, hasRoot, rerr := rootOf(v)
+			rootTok := "-"
+			if hasRoot && rerr == nil {
+				rootTok = hex.EncodeToString(root[:])
+			}
+			do(fmt.Sprintf("x rt %s %s %s %s", k.name, b64(js), b64(sz), rootTok))
+			wire, err := core.VerifMarshal(v)
+			hx.Must(err)
+			all = append(all, encd{k, sz, js, wire, slot20(v)})
+			if isSSZ {
+				sszByType[k.typ] = append(sszByType[k.typ], sz)
+			}
+			// byte-exact wrapper correspondence on the real type
+			if t := wrapperOf(k.typ); t != "" {
+				vn, flag, in, ok := headerInfo(t, v)
+				if ok {
+					ib, err := in.MarshalSSZ()
+					hx.Must(err)
+					do(fmt.Sprintf("tm %s %d %s %s", t, vn, flag, hx2(ib)))
+					do(fmt.Sprintf("tm %s %d %s %s", t, 7+rng.Intn(3), flag, hx2(ib)))
+					run.Count("corr_real_marshal")
+				}
+				do(fmt.Sprintf("tu %s %s %s", t, hx2(sz), strings.Join(tuOracle(t, sz), " ")))
+				ms := sszMutants(rng, sz, sszByType[k.typ], false)
+				lim := 70
+				if thorough {
+					lim = 400
+				}
+				for i, m := range ms {
+					if i >= lim && !(m.kind == "sszsplice" && i%7 == 0) {
+						continue
+					}
+					do(fmt.Sprintf("tu %s %s %s", t, hx2(m.data), strings.Join(tuOracle(t, m.data), " ")))
+					run.Count("corr_real_unmarshal")
+				}
+			}
+			if ad, is := v.(core.AttestationData); is {
+				db, err := ad.Data.MarshalSSZ()
+				hx.Must(err)
+				d := ad.Duty
+				do(fmt.Sprintf("am %s %s %d %d %d %d %d %d", hx2(db), pkHex(d.PubKey), uint64(d.Slot), uint64(d.ValidatorIndex), uint64(d.CommitteeIndex),
+					d.CommitteeLength, d.CommitteesAtSlot, d.ValidatorCommitteeIndex))
+				do(fmt.Sprintf("au %s %s", hx2(sz), auOracle(sz)))
+				for _, m := range sszMutants(rng, sz, nil, thorough) {
+					do(fmt.Sprintf("au %s %s", hx2(m.data), auOracle(m.data)))
+					run.Count("corr_attdata_unmarshal")
+				}
+			}
+		}
+	}
+
+	// ---- 3. set encoders
+	small := func(signed bool) []encd {
+		var out []encd
+		for _, x := range all {
+			if x.k.signed == signed && x.k.duty != 0 && len(x.jsn) < 1500 && !x.s20 {
+				out = append(out, x)
+			}
+		}
+		return out
+	}
+	for _, signed := range []bool{true, false} {
+		cands := small(signed)
+		for i := 0; i < 60; i++ {
+			base := cands[rng.Intn(len(cands))]
+			n := rng.Intn(5)
+			var toks, htoks []string
+			used := map[string]bool{}
+			for j := 0; j < n; j++ {
+				x := cands[rng.Intn(len(cands))]
+				if x.k.duty != base.k.duty {
+					x = base
+				}
+				pk := "0x" + hex.EncodeToString(randBytes(rng, 48))
+				if used[pk] {
+					continue
+				}
+				used[pk] = true
+				data := x.wire
+				if signed {
+					toks = append(toks, pk, strconv.Itoa(1+rng.Intn(6)), hx2(data))
+				} else {
+					toks = append(toks, pk, hx2(data))
+					htoks = append(htoks, pk, b64(data))
+				}
+			}
+			op := map[bool]string{true: "ps", false: "us"}[signed]
+			do(strings.TrimSpace(fmt.Sprintf("%s %d %s", op, int(base.k.duty), strings.Join(toks, " "))))
+			run.Count("corr_set")
+			if !signed && len(htoks) > 0 {
+				do(fmt.Sprintf("x hash %d %s", int(base.k.duty), strings.Join(htoks, " ")))
+			}
+		}
+	}
+
+	// ---- 4. exploration: valid, cross-type, every JSON mutation, SSZ truncations / splices
+	allDuties := core.AllDutyTypes()
+	unsDuties := []core.DutyType{core.DutyAttester, core.DutyProposer, core.DutyAggregator, core.DutySyncContribution, core.DutyRandao}
+	path := func(signed bool) string { return map[bool]string{true: "par", false: "uns"}[signed] }
+	for _, x := range all {
+		encs := [][]byte{x.jsn}
+		if x.ssz != nil {
+			encs = append(encs, x.ssz)
+		}
+		for _, enc := range encs {
+			if x.k.duty != 0 {
+				do(fmt.Sprintf("x dec %s %d %s valid %s", path(x.k.signed), int(x.k.duty), x.k.name, b64(enc)))
+			}
+			for _, d := range allDuties {
+				if d != x.k.duty || !x.k.signed {
+					do(fmt.Sprintf("x dec par %d %s cross %s", int(d), x.k.name, b64(enc)))
+				}
+			}
+			for _, d := range unsDuties {
+				if d != x.k.duty || x.k.signed {
+					do(fmt.Sprintf("x dec uns %d %s cross %s", int(d), x.k.name, b64(enc)))
+				}
+			}
+		}
+		if x.k.duty == 0 {
+			continue
+		}
+		for _, m := range jsonMutants(x.jsn) {
+			do(fmt.Sprintf("x dec %s %d %s %s %s", path(x.k.signed), int(x.k.duty), x.k.name, m.kind, b64(m.data)))
+		}
+		if x.ssz != nil {
+			for _, m := range sszMutants(rng, x.ssz, sszByType[x.k.typ], thorough) {
+				do(fmt.Sprintf("x dec %s %d %s %s %s", path(x.k.signed), int(x.k.duty), x.k.name, m.kind, b64(m.data)))
+			}
+		}
+	}
+	nr := 40
+	if thorough {
+		nr = 600
+	}
+	for _, m := range randomPayloads(rng, nr) {
+		for _, d := range allDuties {
+			do(fmt.Sprintf("x dec par %d - random %s", int(d), b64(m.data)))
+		}
+		for _, d := range unsDuties {
+			do(fmt.Sprintf("x dec uns %d - random %s", int(d), b64(m.data)))
+		}
+	}
+}
+
+func main() {
+	a := hx.ParseArgs()
+	run := hx.NewRun(a.Dir)
+	e := newEnv(run)
+	do := func(op string) {
+		f := strings.Split(op, " ")
+		if f[0] == "x" {
+			e.execX(f)
+			run.Op(op, "x")
+			return
+		}
+		run.Op(op, execCorr(run, f))
+	}
+	if a.Mode == "exec" {
+		for _, op := range hx.ReadOps(a.Ops) {
+			do(op)
+		}
+	} else {
+		gen(a, e, do)
+	}
+	run.Close()
 }
